@@ -835,6 +835,13 @@ func (r *multiCIDRRangeAllocator) prioritizedCIDRs(logger klog.Logger, node *cor
 			cidr, err := r.allocateCIDR(clusterCIDR, clusterCIDR.IPv6CIDRSet)
 			if err != nil {
 				logger.V(3).Info("Unable to allocate IPv6 CIDR, trying next range", "err", err)
+				// Give back the IPv4 CIDR reserved above from this ClusterCIDR,
+				// it is not going to be assigned to the node.
+				for _, reserved := range cidrs {
+					if err := r.Release(logger, clusterCIDR, reserved); err != nil {
+						logger.Error(err, "Unable to release IPv4 CIDR reserved from ClusterCIDR", "clusterCIDR", clusterCIDR.Name)
+					}
+				}
 				continue
 			}
 			cidrs = append(cidrs, cidr)
